@@ -419,6 +419,14 @@ Definition data_destination_parent (data_dir k : path) : result path unit :=
 (** Layer::load_impl: [path.file_name().unwrap()] on [base_dir.join(dir)] *)
 Definition layer_dir_name (base dir : path) : result N unit :=
   match file_name (join base dir) with Some n => Ok n | None => Panic SITE_UNWRAP end.
+(** [plain_name]: the path is a single normal component (Path::components drops a trailing
+    separator or `.`, so `glyphs/` and `glyphs/.` are the component list [Normal glyphs]) *)
+Definition plain_name (p : path) : option N :=
+  match p with [Normal n] => Some n | _ => None end.
+(** LayerContents::load: every directory of layercontents.plist goes through [plain_name] before any
+    layer is read ([Err tt] = FontLoadError::InvalidLayerDirectory); only then does load_impl run *)
+Definition load_layer_dir (base dir : path) : result N unit :=
+  match plain_name dir with None => Err tt | Some _ => layer_dir_name base dir end.
 
 Fixpoint strip_prefix (pre p : path) : option path :=
   match pre, p with
@@ -516,7 +524,8 @@ Definition new_name (s : str) : result str unit :=
 
 Section UNIQUE.
   Variable render : N -> str.       (* format!("{}", counter): L1; used only through injectivity *)
-  (** [while existing.contains_key(&new_name) { new_name = name ++ counter; counter += 1 }] *)
+  (** [while is_taken(&new_name) { new_name = name ++ counter; counter += 1 }] where [is_taken n] =
+      [n] is a key of the groups or one of the kerning keys of that side: [existing] is the union *)
   Fixpoint unique_loop (fuel : nat) (name : str) (existing : list str) (cur : str) (counter : N)
     : result str unit :=
     if negb (smem cur existing) then Ok cur
@@ -566,11 +575,13 @@ Definition from_uuid (s : str) : result str unit :=
 
 (** what Image::new and to_event look at in the [PathBuf] *)
 Record ospath := { os_utf8 : bool; os_empty : bool; os_absolute : bool; os_has_parent : bool }.
-Inductive ierr := EmptyPath | PathIsAbsolute | Subdir.
+Inductive ierr := EmptyPath | PathIsAbsolute | Subdir | PathNotUnicode.
+(** the only constructor of [Image] (its fields are private) *)
 Definition image_new (p : ospath) : result ospath ierr :=
   if os_empty p then Err EmptyPath
   else if os_absolute p then Err PathIsAbsolute
   else if os_has_parent p then Err Subdir
+  else if negb (os_utf8 p) then Err PathNotUnicode
   else Ok p.
 Definition image_to_event (p : ospath) : result unit ierr :=
   if os_utf8 p then Ok tt else Panic SITE_UNWRAP.
